@@ -24,6 +24,8 @@ import BtcVerif.Model.ScriptIter
 import BtcVerif.Spec.Opcodes
 import BtcVerif.Spec.ScriptEnv
 
+set_option linter.unusedVariables false
+
 namespace BtcVerif.Model.ScriptEval
 open BtcVerif BtcVerif.Spec BtcVerif.Spec.Script BtcVerif.Model.Script
 
@@ -370,198 +372,289 @@ def hashTop (sop : Nat) (f : Bytes → Bytes) (st : St) : M St := do
   let (x, s) ← pyIdx (pop? st.stack)
   .ok { st with stack := f x :: s }
 
-/-- the `elif fExec or (OP_IF <= sop <= OP_ENDIF):` arm -/
-def execOp (c : Ctx) (fl : Flags) (script : Bytes) (op : RawOp) (fExec : Bool) (st : St) : M St := do
+/-! the opcode branches, one definition per `elif` arm -/
+
+/-- OP_1NEGATE, OP_1 … OP_16 -/
+def opSmallInt (sop : Nat) (st : St) : M St := do
+  let v ← bn2vch ((sop : Int) - 0x50)
+  .ok { st with stack := v :: st.stack }
+
+/-- OP_2DROP -/
+def op2Drop (sop : Nat) (st : St) : M St := do
+  checkArgs sop 2 st
+  let (_, s) ← pyIdx (pop? st.stack)
+  let (_, s) ← pyIdx (pop? s)
+  .ok { st with stack := s }
+
+/-- OP_2DUP -/
+def op2Dup (sop : Nat) (st : St) : M St := do
+  checkArgs sop 2 st
+  let v1 ← pyIdx (getTop? st.stack 2)
+  let v2 ← pyIdx (getTop? st.stack 1)
+  .ok { st with stack := v2 :: v1 :: st.stack }
+
+/-- OP_2OVER -/
+def op2Over (sop : Nat) (st : St) : M St := do
+  checkArgs sop 4 st
+  let v1 ← pyIdx (getTop? st.stack 4)
+  let v2 ← pyIdx (getTop? st.stack 3)
+  .ok { st with stack := v2 :: v1 :: st.stack }
+
+/-- OP_2ROT -/
+def op2Rot (sop : Nat) (st : St) : M St := do
+  checkArgs sop 6 st
+  let v1 ← pyIdx (getTop? st.stack 6)
+  let v2 ← pyIdx (getTop? st.stack 5)
+  let s ← pyIdx (delTop? st.stack 6)
+  let s ← pyIdx (delTop? s 5)
+  .ok { st with stack := v2 :: v1 :: s }
+
+/-- OP_2SWAP -/
+def op2Swap (sop : Nat) (st : St) : M St := do
+  checkArgs sop 4 st
+  let tmp ← pyIdx (getTop? st.stack 4)
+  let x ← pyIdx (getTop? st.stack 2)
+  let s ← pyIdx (setTop? st.stack 4 x)
+  let s ← pyIdx (setTop? s 2 tmp)
+  let tmp ← pyIdx (getTop? s 3)
+  let x ← pyIdx (getTop? s 1)
+  let s ← pyIdx (setTop? s 3 x)
+  let s ← pyIdx (setTop? s 1 tmp)
+  .ok { st with stack := s }
+
+/-- OP_3DUP -/
+def op3Dup (sop : Nat) (st : St) : M St := do
+  checkArgs sop 3 st
+  let v1 ← pyIdx (getTop? st.stack 3)
+  let v2 ← pyIdx (getTop? st.stack 2)
+  let v3 ← pyIdx (getTop? st.stack 1)
+  .ok { st with stack := v3 :: v2 :: v1 :: st.stack }
+
+/-- OP_CHECKSIG(VERIFY) -/
+def opCheckSig (c : Ctx) (script : Bytes) (sop : Nat) (st : St) : M St := do
+  checkArgs sop 2 st
+  let vchPubKey ← pyIdx (getTop? st.stack 1)
+  let vchSig ← pyIdx (getTop? st.stack 2)
+  let tmpScript := script.drop st.pbegin
+  let enc ← encodeOpPushdata vchSig
+  let tmpScript ← findAndDelete st.cap tmpScript enc
+  let ok ← checkSig c st.cap vchSig vchPubKey tmpScript
+  if !ok ∧ sop = 0xad then raiseNamed sop st
+  else
+    let (_, s) ← pyIdx (pop? st.stack)
+    let (_, s) ← pyIdx (pop? s)
+    if ok then
+      if sop ≠ 0xad then .ok { st with stack := [1] :: s } else .ok { st with stack := s }
+    else .ok { st with stack := [] :: s }                 -- D4 repaired: b"" for False
+
+/-- OP_CODESEPARATOR -/
+def opCodeSeparator (op : RawOp) (st : St) : M St := do
+  .ok { st with pbegin := op.sopIdx }
+
+/-- OP_DEPTH -/
+def opDepth (st : St) : M St := do
+  let v ← bn2vch st.stack.length
+  .ok { st with stack := v :: st.stack }
+
+/-- OP_DROP -/
+def opDrop (sop : Nat) (st : St) : M St := do
+  checkArgs sop 1 st
+  let (_, s) ← pyIdx (pop? st.stack)
+  .ok { st with stack := s }
+
+/-- OP_DUP -/
+def opDup (sop : Nat) (st : St) : M St := do
+  checkArgs sop 1 st
+  let v ← pyIdx (getTop? st.stack 1)
+  .ok { st with stack := v :: st.stack }
+
+/-- OP_ELSE -/
+def opElse (st : St) : M St := do
+  if st.vfExec.length = 0 then raise st
+  let b ← pyIdx (getTop? st.vfExec 1)
+  let vf ← pyIdx (setTop? st.vfExec 1 (!b))
+  .ok { st with vfExec := vf }
+
+/-- OP_ENDIF -/
+def opEndIf (st : St) : M St := do
+  if st.vfExec.length = 0 then raise st
+  let (_, vf) ← pyIdx (pop? st.vfExec)
+  .ok { st with vfExec := vf }
+
+/-- OP_EQUAL -/
+def opEqual (sop : Nat) (st : St) : M St := do
+  checkArgs sop 2 st
+  let (v1, s) ← pyIdx (pop? st.stack)
+  let (v2, s) ← pyIdx (pop? s)
+  .ok { st with stack := (if v1 = v2 then [1] else []) :: s }
+
+/-- OP_EQUALVERIFY -/
+def opEqualVerify (sop : Nat) (st : St) : M St := do
+  checkArgs sop 2 st
+  let v1 ← pyIdx (getTop? st.stack 1)
+  let v2 ← pyIdx (getTop? st.stack 2)
+  if v1 = v2 then
+    let (_, s) ← pyIdx (pop? st.stack)
+    let (_, s) ← pyIdx (pop? s)
+    .ok { st with stack := s }
+  else raiseNamed sop st
+
+/-- OP_FROMALTSTACK -/
+def opFromAltStack (sop : Nat) (st : St) : M St := do
+  if st.alt.length < 1 then raiseNamed sop st
+  let (v, a) ← pyIdx (pop? st.alt)
+  .ok { st with stack := v :: st.stack, alt := a }
+
+/-- OP_IF / OP_NOTIF -/
+def opIf (sop : Nat) (fExec : Bool) (st : St) : M St := do
+  if fExec then
+    checkArgs sop 1 st
+    let (vch, s) ← pyIdx (pop? st.stack)
+    let val := castToBool vch
+    let val := if sop = 0x64 then !val else val
+    .ok { st with stack := s, vfExec := val :: st.vfExec }
+  else .ok { st with vfExec := false :: st.vfExec }
+
+/-- OP_IFDUP -/
+def opIfDup (sop : Nat) (st : St) : M St := do
+  checkArgs sop 1 st
+  let vch ← pyIdx (getTop? st.stack 1)
+  if castToBool vch then .ok { st with stack := vch :: st.stack } else .ok st
+
+/-- OP_NIP -/
+def opNip (sop : Nat) (st : St) : M St := do
+  checkArgs sop 2 st
+  let s ← pyIdx (delTop? st.stack 2)
+  .ok { st with stack := s }
+
+/-- OP_NOP1 … OP_NOP10 -/
+def opNop (fl : Flags) (sop : Nat) (st : St) : M St := do
+  if fl.discourageNops then raiseNamed sop st else .ok st
+
+/-- OP_OVER -/
+def opOver (sop : Nat) (st : St) : M St := do
+  checkArgs sop 2 st
+  let vch ← pyIdx (getTop? st.stack 2)
+  .ok { st with stack := vch :: st.stack }
+
+/-- OP_PICK / OP_ROLL -/
+def opPickRoll (sop : Nat) (st : St) : M St := do
+  checkArgs sop 2 st
+  let (nv, s) ← pyIdx (pop? st.stack)
+  let st := { st with stack := s }
+  let n ← castToBigNum nv st
+  if n < 0 ∨ n ≥ (s.length : Int) then raiseNamed sop st
+  let vch ← pyIdx (getTop? s (n + 1))
+  let s ← if sop = 0x7a then pyIdx (delTop? s (n + 1)) else .ok s
+  .ok { st with stack := vch :: s }
+
+/-- OP_ROT -/
+def opRot (sop : Nat) (st : St) : M St := do
+  checkArgs sop 3 st
+  let tmp ← pyIdx (getTop? st.stack 3)
+  let x ← pyIdx (getTop? st.stack 2)
+  let s ← pyIdx (setTop? st.stack 3 x)
+  let s ← pyIdx (setTop? s 2 tmp)
+  let tmp ← pyIdx (getTop? s 2)
+  let x ← pyIdx (getTop? s 1)
+  let s ← pyIdx (setTop? s 2 x)
+  let s ← pyIdx (setTop? s 1 tmp)
+  .ok { st with stack := s }
+
+/-- OP_SIZE -/
+def opSize (sop : Nat) (st : St) : M St := do
+  checkArgs sop 1 st
+  let top ← pyIdx (getTop? st.stack 1)
+  let v ← bn2vch top.length
+  .ok { st with stack := v :: st.stack }
+
+/-- OP_SWAP -/
+def opSwap (sop : Nat) (st : St) : M St := do
+  checkArgs sop 2 st
+  let tmp ← pyIdx (getTop? st.stack 2)
+  let x ← pyIdx (getTop? st.stack 1)
+  let s ← pyIdx (setTop? st.stack 2 x)
+  let s ← pyIdx (setTop? s 1 tmp)
+  .ok { st with stack := s }
+
+/-- OP_TOALTSTACK -/
+def opToAltStack (sop : Nat) (st : St) : M St := do
+  checkArgs sop 1 st
+  let (v, s) ← pyIdx (pop? st.stack)
+  .ok { st with stack := s, alt := v :: st.alt }
+
+/-- OP_TUCK -/
+def opTuck (sop : Nat) (st : St) : M St := do
+  checkArgs sop 2 st
+  let vch ← pyIdx (getTop? st.stack 1)
+  .ok { st with stack := insertBelowTop st.stack vch }
+
+/-- OP_VERIFY -/
+def opVerify (sop : Nat) (st : St) : M St := do
+  checkArgs sop 1 st
+  let top ← pyIdx (getTop? st.stack 1)
+  if castToBool top then
+    let (_, s) ← pyIdx (pop? st.stack)
+    .ok { st with stack := s }
+  else raiseNamed sop st
+
+/-- OP_WITHIN -/
+def opWithin (sop : Nat) (st : St) : M St := do
+  checkArgs sop 3 st
+  let x3 ← pyIdx (getTop? st.stack 1)
+  let bn3 ← castToBigNum x3 st
+  let x2 ← pyIdx (getTop? st.stack 2)
+  let bn2 ← castToBigNum x2 st
+  let x1 ← pyIdx (getTop? st.stack 3)
+  let bn1 ← castToBigNum x1 st
+  let (_, s) ← pyIdx (pop? st.stack)
+  let (_, s) ← pyIdx (pop? s)
+  let (_, s) ← pyIdx (pop? s)
+  .ok { st with stack := (if bn2 ≤ bn1 ∧ bn1 < bn3 then [1] else []) :: s }   -- D4 repaired
+
+/-- the `elif fExec or (OP_IF <= sop <= OP_ENDIF):` arm: the `if / elif` chain in the order of the source -/
+def execOp (c : Ctx) (fl : Flags) (script : Bytes) (op : RawOp) (fExec : Bool) (st : St) : M St :=
   let sop := op.opcode
-  if sop = 0x4f ∨ (0x51 ≤ sop ∧ sop ≤ 0x60) then
-    let v ← bn2vch ((sop : Int) - 0x50)
-    .ok { st with stack := v :: st.stack }
+  if sop = 0x4f ∨ (0x51 ≤ sop ∧ sop ≤ 0x60) then opSmallInt sop st
   else if sop ∈ binaryNumOps then binOp sop st
   else if sop ∈ unaryNumOps then unaryOp sop st
-  else if sop = 0x6d then                                   -- OP_2DROP
-    checkArgs sop 2 st
-    let (_, s) ← pyIdx (pop? st.stack)
-    let (_, s) ← pyIdx (pop? s)
-    .ok { st with stack := s }
-  else if sop = 0x6e then                                   -- OP_2DUP
-    checkArgs sop 2 st
-    let v1 ← pyIdx (getTop? st.stack 2)
-    let v2 ← pyIdx (getTop? st.stack 1)
-    .ok { st with stack := v2 :: v1 :: st.stack }
-  else if sop = 0x70 then                                   -- OP_2OVER
-    checkArgs sop 4 st
-    let v1 ← pyIdx (getTop? st.stack 4)
-    let v2 ← pyIdx (getTop? st.stack 3)
-    .ok { st with stack := v2 :: v1 :: st.stack }
-  else if sop = 0x71 then                                   -- OP_2ROT
-    checkArgs sop 6 st
-    let v1 ← pyIdx (getTop? st.stack 6)
-    let v2 ← pyIdx (getTop? st.stack 5)
-    let s ← pyIdx (delTop? st.stack 6)
-    let s ← pyIdx (delTop? s 5)
-    .ok { st with stack := v2 :: v1 :: s }
-  else if sop = 0x72 then                                   -- OP_2SWAP
-    checkArgs sop 4 st
-    let tmp ← pyIdx (getTop? st.stack 4)
-    let x ← pyIdx (getTop? st.stack 2)
-    let s ← pyIdx (setTop? st.stack 4 x)
-    let s ← pyIdx (setTop? s 2 tmp)
-    let tmp ← pyIdx (getTop? s 3)
-    let x ← pyIdx (getTop? s 1)
-    let s ← pyIdx (setTop? s 3 x)
-    let s ← pyIdx (setTop? s 1 tmp)
-    .ok { st with stack := s }
-  else if sop = 0x6f then                                   -- OP_3DUP
-    checkArgs sop 3 st
-    let v1 ← pyIdx (getTop? st.stack 3)
-    let v2 ← pyIdx (getTop? st.stack 2)
-    let v3 ← pyIdx (getTop? st.stack 1)
-    .ok { st with stack := v3 :: v2 :: v1 :: st.stack }
-  else if sop = 0xae ∨ sop = 0xaf then                      -- OP_CHECKMULTISIG(VERIFY)
-    checkMultiSig c fl sop (script.drop st.pbegin) st
-  else if sop = 0xac ∨ sop = 0xad then                      -- OP_CHECKSIG(VERIFY)
-    checkArgs sop 2 st
-    let vchPubKey ← pyIdx (getTop? st.stack 1)
-    let vchSig ← pyIdx (getTop? st.stack 2)
-    let tmpScript := script.drop st.pbegin
-    let enc ← encodeOpPushdata vchSig
-    let tmpScript ← findAndDelete st.cap tmpScript enc
-    let ok ← checkSig c st.cap vchSig vchPubKey tmpScript
-    if !ok ∧ sop = 0xad then raiseNamed sop st
-    else
-      let (_, s) ← pyIdx (pop? st.stack)
-      let (_, s) ← pyIdx (pop? s)
-      if ok then
-        if sop ≠ 0xad then .ok { st with stack := [1] :: s } else .ok { st with stack := s }
-      else .ok { st with stack := [] :: s }                 -- D4 repaired: b"" for False
-  else if sop = 0xab then                                   -- OP_CODESEPARATOR
-    .ok { st with pbegin := op.sopIdx }
-  else if sop = 0x74 then                                   -- OP_DEPTH
-    let v ← bn2vch st.stack.length
-    .ok { st with stack := v :: st.stack }
-  else if sop = 0x75 then                                   -- OP_DROP
-    checkArgs sop 1 st
-    let (_, s) ← pyIdx (pop? st.stack)
-    .ok { st with stack := s }
-  else if sop = 0x76 then                                   -- OP_DUP
-    checkArgs sop 1 st
-    let v ← pyIdx (getTop? st.stack 1)
-    .ok { st with stack := v :: st.stack }
-  else if sop = 0x67 then                                   -- OP_ELSE
-    if st.vfExec.length = 0 then raise st
-    let b ← pyIdx (getTop? st.vfExec 1)
-    let vf ← pyIdx (setTop? st.vfExec 1 (!b))
-    .ok { st with vfExec := vf }
-  else if sop = 0x68 then                                   -- OP_ENDIF
-    if st.vfExec.length = 0 then raise st
-    let (_, vf) ← pyIdx (pop? st.vfExec)
-    .ok { st with vfExec := vf }
-  else if sop = 0x87 then                                   -- OP_EQUAL
-    checkArgs sop 2 st
-    let (v1, s) ← pyIdx (pop? st.stack)
-    let (v2, s) ← pyIdx (pop? s)
-    .ok { st with stack := (if v1 = v2 then [1] else []) :: s }
-  else if sop = 0x88 then                                   -- OP_EQUALVERIFY
-    checkArgs sop 2 st
-    let v1 ← pyIdx (getTop? st.stack 1)
-    let v2 ← pyIdx (getTop? st.stack 2)
-    if v1 = v2 then
-      let (_, s) ← pyIdx (pop? st.stack)
-      let (_, s) ← pyIdx (pop? s)
-      .ok { st with stack := s }
-    else raiseNamed sop st
-  else if sop = 0x6c then                                   -- OP_FROMALTSTACK
-    if st.alt.length < 1 then raiseNamed sop st
-    let (v, a) ← pyIdx (pop? st.alt)
-    .ok { st with stack := v :: st.stack, alt := a }
+  else if sop = 0x6d then op2Drop sop st
+  else if sop = 0x6e then op2Dup sop st
+  else if sop = 0x70 then op2Over sop st
+  else if sop = 0x71 then op2Rot sop st
+  else if sop = 0x72 then op2Swap sop st
+  else if sop = 0x6f then op3Dup sop st
+  else if sop = 0xae ∨ sop = 0xaf then checkMultiSig c fl sop (script.drop st.pbegin) st   -- OP_CHECKMULTISIG(VERIFY)
+  else if sop = 0xac ∨ sop = 0xad then opCheckSig c script sop st
+  else if sop = 0xab then opCodeSeparator op st
+  else if sop = 0x74 then opDepth st
+  else if sop = 0x75 then opDrop sop st
+  else if sop = 0x76 then opDup sop st
+  else if sop = 0x67 then opElse st
+  else if sop = 0x68 then opEndIf st
+  else if sop = 0x87 then opEqual sop st
+  else if sop = 0x88 then opEqualVerify sop st
+  else if sop = 0x6c then opFromAltStack sop st
   else if sop = 0xa9 then hashTop sop c.env.hashes.hash160 st   -- OP_HASH160
   else if sop = 0xaa then hashTop sop c.env.hashes.hash256 st   -- OP_HASH256
-  else if sop = 0x63 ∨ sop = 0x64 then                      -- OP_IF / OP_NOTIF
-    if fExec then
-      checkArgs sop 1 st
-      let (vch, s) ← pyIdx (pop? st.stack)
-      let val := castToBool vch
-      let val := if sop = 0x64 then !val else val
-      .ok { st with stack := s, vfExec := val :: st.vfExec }
-    else .ok { st with vfExec := false :: st.vfExec }
-  else if sop = 0x73 then                                   -- OP_IFDUP
-    checkArgs sop 1 st
-    let vch ← pyIdx (getTop? st.stack 1)
-    if castToBool vch then .ok { st with stack := vch :: st.stack } else .ok st
-  else if sop = 0x77 then                                   -- OP_NIP
-    checkArgs sop 2 st
-    let s ← pyIdx (delTop? st.stack 2)
-    .ok { st with stack := s }
-  else if sop = 0x61 then .ok st                            -- OP_NOP
-  else if 0xb0 ≤ sop ∧ sop ≤ 0xb9 then                      -- OP_NOP1 … OP_NOP10
-    if fl.discourageNops then raiseNamed sop st else .ok st
-  else if sop = 0x78 then                                   -- OP_OVER
-    checkArgs sop 2 st
-    let vch ← pyIdx (getTop? st.stack 2)
-    .ok { st with stack := vch :: st.stack }
-  else if sop = 0x79 ∨ sop = 0x7a then                      -- OP_PICK / OP_ROLL
-    checkArgs sop 2 st
-    let (nv, s) ← pyIdx (pop? st.stack)
-    let st := { st with stack := s }
-    let n ← castToBigNum nv st
-    if n < 0 ∨ n ≥ (s.length : Int) then raiseNamed sop st
-    let vch ← pyIdx (getTop? s (n + 1))
-    let s ← if sop = 0x7a then pyIdx (delTop? s (n + 1)) else .ok s
-    .ok { st with stack := vch :: s }
-  else if sop = 0x6a then raise st                          -- OP_RETURN
-  else if sop = 0xa6 then hashTop sop c.env.hashes.ripemd160 st -- OP_RIPEMD160
-  else if sop = 0x7b then                                   -- OP_ROT
-    checkArgs sop 3 st
-    let tmp ← pyIdx (getTop? st.stack 3)
-    let x ← pyIdx (getTop? st.stack 2)
-    let s ← pyIdx (setTop? st.stack 3 x)
-    let s ← pyIdx (setTop? s 2 tmp)
-    let tmp ← pyIdx (getTop? s 2)
-    let x ← pyIdx (getTop? s 1)
-    let s ← pyIdx (setTop? s 2 x)
-    let s ← pyIdx (setTop? s 1 tmp)
-    .ok { st with stack := s }
-  else if sop = 0x82 then                                   -- OP_SIZE
-    checkArgs sop 1 st
-    let top ← pyIdx (getTop? st.stack 1)
-    let v ← bn2vch top.length
-    .ok { st with stack := v :: st.stack }
-  else if sop = 0xa7 then hashTop sop c.env.hashes.sha1 st      -- OP_SHA1
-  else if sop = 0xa8 then hashTop sop c.env.hashes.sha256 st    -- OP_SHA256
-  else if sop = 0x7c then                                   -- OP_SWAP
-    checkArgs sop 2 st
-    let tmp ← pyIdx (getTop? st.stack 2)
-    let x ← pyIdx (getTop? st.stack 1)
-    let s ← pyIdx (setTop? st.stack 2 x)
-    let s ← pyIdx (setTop? s 1 tmp)
-    .ok { st with stack := s }
-  else if sop = 0x6b then                                   -- OP_TOALTSTACK
-    checkArgs sop 1 st
-    let (v, s) ← pyIdx (pop? st.stack)
-    .ok { st with stack := s, alt := v :: st.alt }
-  else if sop = 0x7d then                                   -- OP_TUCK
-    checkArgs sop 2 st
-    let vch ← pyIdx (getTop? st.stack 1)
-    .ok { st with stack := insertBelowTop st.stack vch }
-  else if sop = 0x69 then                                   -- OP_VERIFY
-    checkArgs sop 1 st
-    let top ← pyIdx (getTop? st.stack 1)
-    if castToBool top then
-      let (_, s) ← pyIdx (pop? st.stack)
-      .ok { st with stack := s }
-    else raiseNamed sop st
-  else if sop = 0xa5 then                                   -- OP_WITHIN
-    checkArgs sop 3 st
-    let x3 ← pyIdx (getTop? st.stack 1)
-    let bn3 ← castToBigNum x3 st
-    let x2 ← pyIdx (getTop? st.stack 2)
-    let bn2 ← castToBigNum x2 st
-    let x1 ← pyIdx (getTop? st.stack 3)
-    let bn1 ← castToBigNum x1 st
-    let (_, s) ← pyIdx (pop? st.stack)
-    let (_, s) ← pyIdx (pop? s)
-    let (_, s) ← pyIdx (pop? s)
-    .ok { st with stack := (if bn2 ≤ bn1 ∧ bn1 < bn3 then [1] else []) :: s }   -- D4 repaired
+  else if sop = 0x63 ∨ sop = 0x64 then opIf sop fExec st
+  else if sop = 0x73 then opIfDup sop st
+  else if sop = 0x77 then opNip sop st
+  else if sop = 0x61 then .ok st   -- OP_NOP
+  else if 0xb0 ≤ sop ∧ sop ≤ 0xb9 then opNop fl sop st
+  else if sop = 0x78 then opOver sop st
+  else if sop = 0x79 ∨ sop = 0x7a then opPickRoll sop st
+  else if sop = 0x6a then raise st   -- OP_RETURN
+  else if sop = 0xa6 then hashTop sop c.env.hashes.ripemd160 st   -- OP_RIPEMD160
+  else if sop = 0x7b then opRot sop st
+  else if sop = 0x82 then opSize sop st
+  else if sop = 0xa7 then hashTop sop c.env.hashes.sha1 st   -- OP_SHA1
+  else if sop = 0xa8 then hashTop sop c.env.hashes.sha256 st   -- OP_SHA256
+  else if sop = 0x7c then opSwap sop st
+  else if sop = 0x6b then opToAltStack sop st
+  else if sop = 0x7d then opTuck sop st
+  else if sop = 0x69 then opVerify sop st
+  else if sop = 0xa5 then opWithin sop st
   else raise st                                             -- 'unsupported opcode'
 
 /-- one iteration of the `for (sop, sop_data, sop_pc) in scriptIn.raw_iter():` loop -/
